@@ -44,6 +44,7 @@ func retainedCells(col *Collector, r *RNG, tier string, gen func(*RNG, string) [
 		md   uint16
 		u    bool
 		data []byte
+		orig []byte // a private copy of data (string-like values are sub-slices of data: overwriting them changes it)
 		want string // hex of the canonical text; "N" never occurs here
 	}
 	mk := func(line string) (item, bool) {
@@ -59,6 +60,7 @@ func retainedCells(col *Collector, r *RNG, tier string, gen func(*RNG, string) [
 		t, _ := strconv.Atoi(lf["t"])
 		md, _ := strconv.Atoi(lf["md"])
 		it := item{line: line, t: byte(t), md: uint16(md), u: lf["u"] == "1", data: exact(append(unhx(f["bytes"]), unhx(lf["rest"])...)), want: sp[0]}
+		it.orig = exact(it.data)
 		// only cells whose single decode is right take part (a wrong single decode is the business of the per-cell
 		// cases; a sibling may also be out of the type's domain)
 		okNow := false
@@ -168,5 +170,35 @@ func retainedCells(col *Collector, r *RNG, tier string, gen func(*RNG, string) [
 			}
 		}
 		col.AddScenario("cells-retained", desc, true, ok, true, note, "cell-result-overwritten", fmt.Sprintf("%d values kept", len(items)), "")
+		if !ok {
+			continue
+		}
+		// the returned values are the caller's: it may edit them in place (mask a value, reuse the buffer). Overwrite
+		// every kept value, then decode the same cells once more: the fresh values must still be right - a decoder
+		// that hands out a shared constant (a package-level "zero" value) now reads the caller's bytes
+		for i := range kept {
+			for k := range kept[i] {
+				kept[i][k] = 'X'
+			}
+		}
+		ok2, note2, desc2 := true, "", ""
+		for _, it := range items {
+			var v []byte
+			var err error
+			func() {
+				defer func() { recover() }()
+				v, _, err = replication.CellBytes(exact(it.orig), 0, it.t, it.md, it.u)
+			}()
+			if err != nil || hx(v) != it.want {
+				ok2 = false
+				note2 = fmt.Sprintf("after the caller overwrote the values it had been given, decoding a cell of type %d md %d again gives %q, want %q", it.t, it.md, clip(string(v), 60), clip(string(unhx(it.want)), 60))
+				desc2 = it.line + " ;; decoded, the returned bytes overwritten with X, decoded again"
+				break
+			}
+		}
+		if desc2 == "" {
+			desc2 = "overwrite-then-decode-again over " + clip(desc, 200)
+		}
+		col.AddScenario("cells-overwritten-then-decoded-again", desc2, true, ok2, true, note2, "cell-shared-constant", fmt.Sprintf("%d cells", len(items)), "")
 	}
 }
